@@ -65,6 +65,16 @@ pub fn run(a: &Args) {
         let focus = ["c04", "c05", "c06", "c07", "c20", "c12"][(case % 6) as usize];
         let mut plan = gen_plan(&mut rng, focus, &a.tier, case + 1);
         if plan.crash == 3 { plan.crash = 1; }
+        // one fixed shape: two regions collected one after the other that TOUCH in the target's address space - the window around
+        // the crash instruction pointer (crash thread listed last) ends exactly where the first application region starts
+        if case == 3 {
+            if plan.scen.threads.is_empty() { plan.scen.threads.push(crate::live::ThreadSpec { kind: crate::live::Kind::Block, sp_off: 0x800, pages: 2, name: None, at: None }); }
+            if let Some(t) = plan.scen.threads.last_mut() { t.kind = crate::live::Kind::Block; t.at = None; }
+            plan.crash = 2; plan.blame_idx = Some(plan.scen.threads.len() - 1); plan.blame_late = false; plan.skip = 0; plan.limit = None;
+            plan.crash_ip = Some(crate::tl::CRASH_IP_ANON0_PLUS_128);
+            plan.scen.lines.retain(|l| !l.starts_with("appmem")); plan.scen.lines.push("appmem 0 256 3840".into()); plan.napp = 1;
+            out.count("shape.application_region_touching_the_crash_window");
+        }
         // names that are not ASCII: thread names and caller-supplied mapping names go through the string writer
         let fancy = ["tête", "", "ñandú-7", "日本語スレ", "😀😀", "a é", "ü", " "];   // the empty and the all-blank name are readable names too
         for (i, t) in plan.scen.threads.iter_mut().enumerate() { if rng.chance(1, 2) { t.name = Some(fancy[i % fancy.len()].as_bytes().to_vec()); } }
